@@ -55,10 +55,10 @@ pub fn world() -> World {
         ],
         rule: "one run = one session: construction against a drawn emulator personality, a drawn app script of write/execute/flush/poll(None|0|d)/frames_pending/frames_drop, concurrent actor events (typed keys, waker calls, signals, emulator drains and replies, stalls, hang-up, EIO) placed by the tape, a drop point, then dispose; non-trivial = at least one fault fired or an actor event ran inside a poll; distinct = distinct hash of the (actor, action, result kind) sequence",
         runs: |prop, tier| match (prop, tier) {
-            ("C16", Tier::Quick) => 40_000,
-            ("C16", Tier::Thorough) => 1_500_000,
-            (_, Tier::Quick) => 60_000,
-            (_, Tier::Thorough) => 2_000_000,
+            ("C16", Tier::Quick) => 100_000,
+            ("C16", Tier::Thorough) => 4_000_000,
+            (_, Tier::Quick) => 150_000,
+            (_, Tier::Thorough) => 5_000_000,
         },
         features: &[],
     }
